@@ -333,9 +333,17 @@ fn expand_enum(
                 .unwrap_or_default();
             let ident = &variant.ident;
 
+            // A default (non-wrapping) top-level format is used for such a variant, so its name is
+            // never formatted implicitly.
+            let has_default_fmt = container_attrs
+                .common
+                .fmt
+                .as_ref()
+                .is_some_and(|fmt| !fmt.contains_arg("_variant"));
             if attrs.common.fmt.is_none()
                 && variant.fields.is_empty()
                 && attr_name != "display"
+                && !has_default_fmt
             {
                 return Err(syn::Error::new(
                     e.variants.span(),
